@@ -40,7 +40,43 @@ def _unescape_tla(s):
     return "".join(out)
 
 
-_TAGGED = re.compile(r'^<<"([A-Z0-9_]+)", (.*)>>\s*$')
+def _tuples(stdout):
+    """top-level <<...>> values printed by PrintT, possibly wrapped over several lines by TLC's pretty printer"""
+    out = []
+    buf = None
+    depth = 0
+    instr = False
+    for line in stdout.splitlines():
+        if buf is None:
+            if not line.startswith("<<"):
+                continue
+            buf = []
+            depth = 0
+            instr = False
+        else:
+            line = " " + line.strip()
+        i = 0
+        while i < len(line):
+            c = line[i]
+            if instr:
+                if c == "\\":
+                    i += 1
+                elif c == '"':
+                    instr = False
+            elif c == '"':
+                instr = True
+            elif line.startswith("<<", i):
+                depth += 1
+                i += 1
+            elif line.startswith(">>", i):
+                depth -= 1
+                i += 1
+            i += 1
+        buf.append(line)
+        if depth <= 0 and not instr:
+            out.append("".join(buf))
+            buf = None
+    return out
 
 
 def parse_tagged(stdout, tag):
@@ -48,11 +84,16 @@ def parse_tagged(stdout, tag):
 
     Elements may be TLA+ string literals (possibly JSON produced by ToJson), integers or booleans."""
     res = []
-    for line in stdout.splitlines():
-        m = _TAGGED.match(line)
-        if not m or m.group(1) != tag:
+    head = '<<"%s"' % tag
+    head2 = '<< "%s"' % tag
+    for t in _tuples(stdout):
+        t = t.strip()
+        if t.startswith(head2):
+            t = head + t[len(head2):]
+        if not t.startswith(head) or not t.endswith(">>"):
             continue
-        res.append(_parse_elems(m.group(2)))
+        body = t[len(head):-2].lstrip(" ,")
+        res.append(_parse_elems(body))
     return res
 
 
